@@ -24,3 +24,19 @@ func vSliceLen(x any) int { return reflect.ValueOf(x).Len() }
 func vSliceSwap(x any, i, j int) {
 	reflect.Swapper(x)(i, j)
 }
+
+// vExprTable: what expr.Parse returns for the expression texts a harness uses (engine only;
+// natively the real parser runs, which validates the table on every cross-checked path).
+var vExprTable = map[string]map[string]string{}
+
+func vmExprParse(data string) (map[string]string, error) {
+	m, ok := vExprTable[data]
+	if !ok {
+		panic("vmExprParse: text not in the harness table: " + data)
+	}
+	out := make(map[string]string, len(m))
+	for k, v := range m {
+		out[k] = v
+	}
+	return out, nil
+}
